@@ -315,6 +315,71 @@ def run_case(spec, inputs=None):
         except Exception as e:  # noqa: BLE001
             out["violations"].append(dict(key=f"C17/via-handler/raised/{type(e).__name__}", msg=f"{type(e).__name__}: "
                                           f"{str(e)[:200]}", witness={}))
+    # ... and the way production loads them: every step of the night is one stored VERSION of the results file,
+    # fetched by the real S3VersionUtil (real botocore client and transfer threads over a scripted service, as in
+    # C19), stamped and ordered by the handler.  The timeline crosses the end of daylight saving time in the
+    # handler's zone: the order of the versions is the order of their instants, not of their wall-clock readings.
+    if spec["i"] % 9 == 4 and not out["violations"]:
+        import datetime as dt
+
+        from . import c19
+
+        rng2 = np.random.default_rng(spec["i"] + 7)
+        zone, base = [("America/New_York", dt.datetime(2021, 11, 7, 4, 30, tzinfo=dt.timezone.utc)),
+                      ("America/New_York", dt.datetime(2030, 11, 3, 5, 10, tzinfo=dt.timezone.utc)),
+                      ("Europe/Berlin", dt.datetime(2029, 10, 28, 0, 20, tzinfo=dt.timezone.utc)),
+                      ("UTC", dt.datetime(2030, 11, 5, 23, 0, tzinfo=dt.timezone.utc))][int(rng2.integers(0, 4))]
+        per_unit = {str(f): hh.sort_values("last_modified").to_dict(orient="records")
+                    for f, hh in df.groupby("geographic_unit_fips", sort=False)}
+        n_steps = max(len(v) for v in per_unit.values())
+        step_s = int(rng2.choice([300, 600, 1200]))
+        key = "r/2031-01-01_XX_G/results/G/county/current.csv"
+        versions, bodies = [], {}
+        for k in reversed(range(n_steps)):  # listings are newest first
+            vid = f"s{k:04d}"
+            lines = ["geographic_unit_fips,postal_code,results_dem,results_gop,results_turnout,percent_expected_vote"]
+            for f, hist in per_unit.items():
+                if k < len(hist):
+                    r = hist[k]
+                    lines.append(f"{f},AA,{r['results_dem']},{r['results_gop']},{r['results_turnout']},"
+                                 f"{r['percent_expected_vote']}")
+            body = ("\n".join(lines) + "\n").encode()
+            bodies[vid] = body
+            versions.append(dict(VersionId=vid, LastModified=base + dt.timedelta(seconds=step_s * k), Size=len(body),
+                                 Key=key, IsLatest=(k == n_steps - 1), ETag=f'"{vid}"', StorageClass="STANDARD"))
+        svc = c19.Service(versions, bodies, int(rng2.choice([3, 1000])), set(), {}, {})
+        h3 = None
+        try:
+            with warnings.catch_warnings(), np.errstate(all="ignore"):
+                warnings.simplefilter("ignore")
+                h3 = VersionedDataHandler("2031-01-01_XX_G", "G", "county", estimands=["margin"], sample=1, tzinfo=zone)
+                hc = h3.s3_client.s3_client
+                hc.list_object_versions, hc.head_object, hc.get_object = (svc.list_object_versions, svc.head_object,
+                                                                          svc.get_object)
+                h3.get_versioned_results()
+                res3 = h3.compute_versioned_margin_estimate()
+            by3 = {}
+            for r in res3.to_dict(orient="records"):
+                by3.setdefault(str(r["geographic_unit_fips"]), []).append(r)
+            for f, hist in per_unit.items():
+                vs, _ = judge_unit(f, hist, by3.get(str(f), []))
+                for v in vs:
+                    v["key"] = v["key"].replace("C17/", "C17/via-version-store/")
+                    v["msg"] = f"[versions {step_s}s apart from {base.isoformat()} read in zone {zone}] " + v["msg"]
+                out["violations"] += vs
+                out["counters"]["histories_via_version_store"] = out["counters"].get("histories_via_version_store", 0) + 1
+            out["sets"]["version_store_zones"] = [zone]
+        except Exception as e:  # noqa: BLE001
+            import traceback
+
+            out["violations"].append(dict(key=f"C17/via-version-store/raised/{type(e).__name__}",
+                                          msg=f"{type(e).__name__}: {str(e)[:200]}",
+                                          witness=dict(tb=traceback.format_exc()[-700:])))
+        finally:
+            try:
+                h3.s3_client.manager.shutdown()
+            except Exception:  # noqa: BLE001
+                pass
     # second monitor: flagged units cannot contribute to an extrapolation -------------------------------------
     if spec["i"] % EXTRAP_EVERY == 0 and not out["violations"]:
         v2, c2 = extrapolation_monitor(spec, as_int)
